@@ -303,6 +303,12 @@ func (ex *Exec) contractCall(f *ssa.Function, c *Contract, args []Term, h *Heap,
 		vars[pnames[i]+"0"] = SV{args[i], ptypes[i]}
 		vars[fmt.Sprintf("arg%d", i)] = SV{args[i], ptypes[i]}
 	}
+	if !c.Assumed && len(f.Blocks) > 0 {
+		if ex.P.usedContracts == nil {
+			ex.P.usedContracts = map[string]bool{}
+		}
+		ex.P.usedContracts[funcKey(f)] = true
+	}
 	pre := h.clone()
 	cx := &Exec{q: q, P: ex.P, fn: f, vals: map[ssa.Value]Term{}, locs: map[ssa.Value]*Loc{}, params: args, entryHeap: pre, stack: ex.stack, depth: ex.depth, counters: ex.counters, root: ex.root, witness: map[string]SV{}, parentExec: ex}
 	for i, p := range f.Params {
@@ -552,7 +558,7 @@ func (ex *Exec) appendBuiltin(x ssa.Value, cc *ssa.CallCommon, h *Heap, reach Te
 	}
 	newLen := q.def("applen", add(slLen(s), n))
 	fits := q.def("appfits", le(newLen, slCap(s)))
-	if ins, ok := x.(ssa.Instruction); ok && q.propActive("C09") && !ex.skipAlloc {
+	if ins, ok := x.(ssa.Instruction); ok && q.propActive("C09") && !ex.skipAlloc && ex.guardsAllocs() {
 		q.declFun("ghost_membudget", "() Int")
 		bytes := app(sInt, "*", newLen, tInt(sizeOfType(st.Elem())))
 		q.oblige(ex.obName("guard.alloc"), "guard.alloc", reach, or(fits, le(bytes, tInt(4096+64)), lt(bytes, add(Term{"ghost_membudget", sInt}, tInt(64)))), ex.pos(ins),
